@@ -1,4 +1,5 @@
 import MlModel.Lemmas.Piter2Shared
+import MlModel.Lemmas.Piter2Frame
 /-!
 # C13, the two-level composition `piter(iterator_fn, input_iterators=[i_1 … i_n], max_parallism=P)`
 
@@ -12,6 +13,9 @@ ONE pool, upstream stop of fix 091db8d).  Proved here (all schedules, all sizes)
 * `C13_two_sticky` — a recorded failure, a stop request and exhaustion of EITHER queue are never withdrawn;
 * `C13_two_pool_gate` — a task of either level starts only through the one pool gate, and the gate is the only
   condition;
+* `C13_two_no_task_waits`, `C13_two_own_pool_never_waits` — with a worker per task (in particular in the pool sized by
+  fix b40a851) a submitted task of either level ALWAYS has its `start` step enabled, in every reachable configuration:
+  the pool is never the reason a configuration is stuck (the ingredient of deadlock-freedom that fails in F-C13-pool-small);
 * `C13_two_own_pool_size` — the pool `piter` creates itself (fix b40a851) has more workers than inputs and more workers
   than `iterator_fn` tasks, in fact one per task;
 * witnesses (`Witness/C13.lean`): with `max_workers ≤ #inputs` a reachable configuration without any enabled step exists
@@ -107,6 +111,47 @@ theorem C13_two_own_pool_size (bufferSize : Nat) (numSteps : Option Nat) (fwd : 
     omega
   · simp only [piterInit, init]; omega
   · simp only [piterInit, init]; omega
+
+/-- **with a worker per task no task ever waits for the pool** (every schedule, any-order pool; `max_workers = 0` = no
+bound): in every configuration reachable from an initial configuration, a task of either level that was submitted and
+has not started has its `start` step enabled. -/
+theorem C13_two_no_task_waits {cap1 cap2 bm1 bm2 mw : Nat} {ns : Option Nat} {fwd : Bool} {inputs : List InSpec}
+    {gens : List Nat} {c : Piter2.Cfg}
+    (hw : mw = 0 ∨ inputs.length + gens.length ≤ mw)
+    (h : Reachable F (Piter2.init cap1 cap2 bm1 bm2 mw ns fwd inputs gens) c)
+    {tid : Tid} {t : Th} (ht : c.ths[tid]? = some t) (htask : t.isTask = true) (hns : t.started = false)
+    (hsub : tid ≤ c.nsub) : (Piter2.step F c tid false).isSome = true := by
+  rw [(C13_two_pool_gate ht htask hns).1]
+  refine gate_of_enough_workers h (hd0 := mkCons bm2) (tl0 := inputs.map mkL1 ++ gens.map (mkL2 bm1)) rfl rfl rfl ?_
+    ht htask hns hsub
+  rcases hw with hw | hw
+  · exact .inl hw
+  · right
+    simp only [Piter2.init, Piter2.Cfg.nTasks, List.length_cons, List.length_append, List.length_map]
+    omega
+
+/-- **piter's own pool (fix b40a851) never makes a task wait**: the instance of `C13_two_no_task_waits` for the
+configuration `piter` builds when no pool is given. -/
+theorem C13_two_own_pool_never_waits {bufferSize : Nat} {numSteps : Option Nat} {fwd : Bool} {inputs : List InSpec}
+    {gens : List Nat} {c : Piter2.Cfg}
+    (h : Reachable F (piterInit bufferSize none numSteps fwd inputs gens) c)
+    {tid : Tid} {t : Th} (ht : c.ths[tid]? = some t) (htask : t.isTask = true) (hns : t.started = false)
+    (hsub : tid ≤ c.nsub) : (Piter2.step F c tid false).isSome = true := by
+  unfold piterInit at h
+  exact C13_two_no_task_waits (.inr (by simp only []; omega)) h ht htask hns hsub
+
+/-- non-vacuity of the hypotheses: after the caller's first `submit`, task 1 is submitted and not started -/
+example : ∃ c t, Reachable (Piter.evalFn .ident none)
+      (piterInit 1 none none false [⟨[.val 1], 900, []⟩, ⟨[.val 3], 901, []⟩] [800]) c ∧
+      c.ths[1]? = some t ∧ t.isTask = true ∧ t.started = false ∧ 1 ≤ c.nsub := by
+  have h : ((run (Piter.evalFn .ident none)
+      (piterInit 1 none none false [⟨[.val 1], 900, []⟩, ⟨[.val 3], 901, []⟩] [800]) [0, 0]).map fun c =>
+        (c.ths[1]?.map fun t => (t.isTask, t.started), decide (1 ≤ c.nsub))) = some (some (true, false), true) := by
+    decide +kernel
+  obtain ⟨c, hr, hc⟩ := Option.map_eq_some_iff.mp h
+  simp only [Prod.mk.injEq, Option.map_eq_some_iff, decide_eq_true_eq] at hc
+  obtain ⟨⟨t, ht, h1, h2⟩, h3⟩ := hc
+  exact ⟨c, t, reachable_run _ _ _ hr, ht, h1, h2, h3⟩
 
 /-- a caller's pool with `max_workers ≤ #inputs` violates the side condition (and `Witness/C13.lean` shows reachable
 stuck configurations for such pools) -/
